@@ -487,6 +487,11 @@ def zone_lookup(key):
         return type(e).__name__
 
 
+def lookup_word(lk):
+    # anything else cannot be expressed; the replies will then differ and be reported
+    return lk if lk in ('ok', 'ZoneInfoNotFoundError', 'ValueError') else 'ok'
+
+
 def fmt_num(r):
     if isinstance(r, bool):
         return 'bool:%d' % r
@@ -671,11 +676,7 @@ def unmarshall_impl(m):
 def unmarshall_req(m):
     absent = object()
     n = m.get('tzname', absent)
-    lk = 'ok'
-    if isinstance(n, str) and n:
-        lk = zone_lookup(canon_key(n))
-        if lk not in ('ok', 'ZoneInfoNotFoundError', 'ValueError'):
-            lk = 'ok'       # cannot be expressed; the replies will then differ and be reported
+    lk = lookup_word(zone_lookup(canon_key(n))) if isinstance(n, str) and n else 'ok'
     return req('unmarshall', fields_str([m[k] for k in ('year', 'month', 'day', 'hour', 'minute', 'second',
                                                          'microsecond')]), tz_entry(n, absent), lk)
 
@@ -693,24 +694,15 @@ def model_requests(case):
     if kind == 'marshall':
         d = build_dt(case['dt'])
         f = dt_fields(d)
+        leap = 1 if case.get('leap') else 0
+        n = None if d.tzinfo is None else d.tzinfo.tzname(None)
+        # the tz database is a parameter: what ZoneInfo() says about the key that will be asked for
+        lk = lookup_word(zone_lookup(canon_key(n))) if n else 'ok'
         if case.get('via_override'):
             # the calendar is a parameter: the fields of the override instant are supplied with the request
-            first = req('marshall_now', case['dt']['us'], fields_str(f))
-        elif d.tzinfo is None:
-            first = req('marshall', fields_str(f), 'naive')
-        else:
-            n = d.tzinfo.tzname(None)
-            first = req('marshall', fields_str(f), 'none' if n is None else 'name:' + common.hexs(n))
-        # second request: unmarshall what marshall_now produced (its tz entry is canon_key(name)), leap second added
-        if d.tzinfo is None:
-            m = {}
-        else:
-            n = d.tzinfo.tzname(None)
-            m = {'tzname': None if n is None else canon_key(n)}
-        m.update(zip(('year', 'month', 'day', 'hour', 'minute', 'second', 'microsecond'), f))
-        if case.get('leap'):
-            m['second'] = 60
-        return [first, unmarshall_req(m)]
+            return [req('roundtrip_now', case['dt']['us'], fields_str(f), leap, lk)]
+        tz = 'naive' if d.tzinfo is None else ('none' if n is None else 'name:' + common.hexs(n))
+        return [req('roundtrip', fields_str(f), tz, leap, lk)]
     if kind == 'unmarshall':
         return [unmarshall_req(record_of(case))]
     raise ValueError(kind)
@@ -738,9 +730,7 @@ def compare(case, impl, replies):
         ok = len(mo) == len(io) and all(same_out(a, b) for a, b in zip(io, mo)) and parts[1] == impl[1]
         return ok, parts
     if kind == 'marshall':
-        first = replies[0].split('\t')
-        model = first + [replies[1]]
-        return model == impl, model
+        return replies[0] == '\t'.join(impl), replies
     return replies == impl, replies
 
 
